@@ -63,6 +63,28 @@ ASSUMPTIONS = [
     "clang's AST is the trusted parser/resolver",
 ]
 
+EXPLANATION += (
+    " R9.4 (rules/c09_connect.py): the edges the matrix knows are the edges the "
+    "caller issued. Every typegraph function that registers an edge with "
+    "add_connection (directly or through a helper that does so on every path: "
+    "CFGNode::ConnectTo) is executed symbolically over its statement structure "
+    "(if/else with &&, ||, ! split into path alternatives; a range-for binds "
+    "its variable to `an element of C`; break / continue / return); every exit "
+    "that has not passed add_connection must carry, among the branch conditions "
+    "of its path, either the self-edge test `this == node` or a membership test "
+    "of exactly the requested edge a->b: b found in a->outgoing_ or a found in "
+    "b->incoming_ (a, b read off the push_back calls that store the edge). "
+    "Membership is `elem == x` inside `for (elem : C)`, std::find(C.begin(), "
+    "C.end(), x) != C.end(), std::count(..) > 0, or a bool helper of the "
+    "typegraph whose every non-false return is such a test (this / parameters "
+    "substituted); const getters outgoing() / incoming() designate the field; "
+    "once-bound locals their initialiser. A test of the reverse edge (node in "
+    "this->incoming_), of another container, or an exit under an unrelated "
+    "condition is a violation: the edge is dropped and every path through it is "
+    "missing from the closure while the matrix stays consistent with the "
+    "node's own lists. A path condition built from a reassigned flag or an "
+    "unresolved call is an analysis error.")
+
 RC = "pytype/typegraph/reachable.cc"
 W64 = {"long", "long long", "std::int64_t", "int64_t", "unsigned long",
        "unsigned long long", "std::uint64_t", "uint64_t", "__int64_t",
